@@ -270,3 +270,20 @@ text("c05-v3-model", "C05", V3, "        security_model_id = 3\n        if self.
 text("c05-v3-context-swapped", "C05", V3, "            OctetString(engine_id), OctetString(context_name), pdu", "            OctetString(context_name), OctetString(engine_id), pdu")
 text("c05-v3-msgid-const", "C05", V3, "        header = HeaderData(\n            request_id,", "        header = HeaderData(\n            0,")
 text("c05-s-pdu-list-inline", "C05", PDU, "        data: List[Type[Any]] = [\n            Integer(self.value.request_id),\n            Integer(self.value.error_status),\n            Integer(self.value.error_index),\n            Sequence(wrapped_varbinds),  # type: ignore\n        ]\n        payload = b\"\".join([bytes(chunk) for chunk in data])\n        return payload", "        fields: List[Type[Any]] = [\n            Integer(self.value.request_id),\n            Integer(self.value.error_status),\n            Integer(self.value.error_index),\n            Sequence(wrapped_varbinds),  # type: ignore\n        ]\n        return b\"\".join([bytes(chunk) for chunk in fields])", expect="silent")
+
+# ---------------------------------------------------------------- C06
+text("c06-counter64-tag", "C06", TYPES, "    SIGNED = False\n    TYPECLASS = TypeClass.APPLICATION\n    TAG = 0x06", "    SIGNED = False\n    TYPECLASS = TypeClass.APPLICATION\n    TAG = 0x07")
+text("c06-gauge-signed", "C06", TYPES, "class Gauge(Integer):\n    \"\"\"\n    SNMP type for gauges.\n    \"\"\"\n\n    SIGNED = False\n", "class Gauge(Integer):\n    \"\"\"\n    SNMP type for gauges.\n    \"\"\"\n\n")
+text("c06-opaque-class", "C06", TYPES, "class Opaque(OctetString):\n    \"\"\"\n    The Opaque type is to be considered to carry \"any\" binary data.\n\n    It is up to the application to know how to interpret this data and is\n    passed through transparently by the SNMP protocol.\n    \"\"\"\n\n    TYPECLASS = TypeClass.APPLICATION", "class Opaque(OctetString):\n    \"\"\"\n    The Opaque type is to be considered to carry \"any\" binary data.\n\n    It is up to the application to know how to interpret this data and is\n    passed through transparently by the SNMP protocol.\n    \"\"\"\n\n    TYPECLASS = TypeClass.CONTEXT")
+text("c06-endofmib-tag", "C06", PDU, "    TYPECLASS = TypeClass.CONTEXT\n    NATURE = [TypeNature.PRIMITIVE]\n    TAG = 2", "    TYPECLASS = TypeClass.CONTEXT\n    NATURE = [TypeNature.PRIMITIVE]\n    TAG = 1")
+text("c06-types-import-conditional", "C06", "puresnmp/__init__.py", "import puresnmp.types\n", "try:\n    import puresnmp.types\nexcept ImportError:\n    pass\n")
+text("c06-decode-swap-status-index", "C06", PDU, "        return PDUContent(\n            request_id.value, varbinds, error_status.value, error_index.value\n        )", "        return PDUContent(\n            request_id.value, varbinds, error_index.value, error_status.value\n        )")
+text("c06-decode-read-order", "C06", PDU, "        error_status, nxt = decode(data, nxt, enforce_type=Integer)\n        error_index, nxt = decode(data, nxt, enforce_type=Integer)", "        error_index, nxt = decode(data, nxt, enforce_type=Integer)\n        error_status, nxt = decode(data, nxt, enforce_type=Integer)", note="the second wire INTEGER (error-status) is bound to error_index and vice versa")
+text("c06-varbind-swapped-decode", "C06", PDU, "            varbinds.append(VarBind(oid, value))\n\n        return PDUContent(", "            varbinds.append(VarBind(value, oid))\n\n        return PDUContent(")
+text("c06-header-index", "C06", ADT, "        msg_id = cast(Integer, header[0])\n        msg_max_size = cast(Integer, header[1])", "        msg_id = cast(Integer, header[1])\n        msg_max_size = cast(Integer, header[0])")
+text("c06-secparams-index", "C06", ADT, "        security_parameters = cast(OctetString, seq[2]).value", "        security_parameters = cast(OctetString, seq[3]).value")
+text("c06-flags-mask", "C06", ADT, "        reportable = bool(flags & 0b100)\n        priv = bool(flags & 0b010)\n        auth = bool(flags & 0b001)", "        reportable = bool(flags & 0b100)\n        priv = bool(flags & 0b001)\n        auth = bool(flags & 0b010)")
+text("c06-flags-positional-swap", "C06", ADT, "        return V3Flags(auth, priv, reportable)", "        return V3Flags(priv, auth, reportable)")
+text("c06-usm-boots-time-decode", "C06", USM, "            authoritative_engine_boots=seq[1].pythonize(),\n            authoritative_engine_time=seq[2].pythonize(),", "            authoritative_engine_boots=seq[2].pythonize(),\n            authoritative_engine_time=seq[1].pythonize(),")
+text("c06-scoped-decode-index", "C06", ADT, "        engine_id = cast(OctetString, sequence[0])\n        cname = cast(OctetString, sequence[1])", "        engine_id = cast(OctetString, sequence[1])\n        cname = cast(OctetString, sequence[0])")
+text("c06-message-class-selection", "C06", ADT, "            EncryptedMessage\n            if isinstance(message[3], OctetString)\n            else PlainMessage", "            EncryptedMessage\n            if isinstance(message[2], OctetString)\n            else PlainMessage")
